@@ -34,6 +34,7 @@ THEOREMS = [
     NS + "C16_print_parse",
     NS + "C16_print_parse_text",
     NS + "C16_fast_path",
+    NS + "C16_tokenize_spec",
     NS + "C16_tokenize_render",
     NS + "C16_partial",
     NS + "C16_eval_free",
